@@ -10,7 +10,7 @@ import re as _re
 import z3
 
 from vf.runner import Unsupported
-from vf.pyvc.values import (V, VInt, VBool, NONE, VSeq, VBox, VTuple, VOpt, VObj, VPy, VFunc, VClass,
+from vf.pyvc.values import (V, VInt, VBool, NONE, VSeq, VBox, VTuple, VOpt, VObj, VPy, VFunc, VClass, DictVal, empty_dict, REC_CLASSES,
                             I, B, SeqI, wrap, unwrap, type_of, fresh, fresh_name, const_seq, lift, sort_of)
 
 # uninterpreted / axiomatised symbols ------------------------------------------------------------
@@ -18,6 +18,9 @@ F_FIND = z3.Function("first_at", SeqI, I, I, I)      # first_at(buf, c, p): leas
 F_PYINT = z3.Function("py_int", SeqI, I)             # int(<text>) when it is a numeral
 F_ISINT = z3.Function("py_is_int", SeqI, B)          # whether int(<text>) succeeds
 F_FILEDATA = z3.Function("file_data", SeqI, SeqI)    # content of the file named <name> (re-open by name)
+F_LSKIP = z3.Function("py_lskip", SeqI, I, I, I)      # first index of the view that strip() keeps
+F_RSKIP = z3.Function("py_rskip", SeqI, I, I, I)      # end index that strip() keeps
+F_DECODE = z3.Function("py_decode", SeqI, SeqI, SeqI, SeqI)
 F_REMATCH = z3.Function("re_matches", I, z3.StringSort(), SeqI, B)
 F_REGROUP = z3.Function("re_group", I, z3.StringSort(), I, SeqI, SeqI)
 F_REGROUPNONE = z3.Function("re_group_is_none", I, z3.StringSort(), I, SeqI, B)
@@ -96,7 +99,7 @@ class SpecLib:
         elif isinstance(obj, VPy):
             if isinstance(obj.obj, _re.Pattern):
                 kind = "pattern"
-            elif hasattr(obj.obj, name) and isinstance(obj.obj, type(_re)):
+            elif hasattr(obj.obj, name) and isinstance(obj.obj, type(_re)) and not isinstance(obj.obj, _re.Pattern):
                 real = getattr(obj.obj, name)
                 b = self.lookup_real(ex, real, name)
                 return b if b is not None else lift(real)
@@ -115,6 +118,10 @@ class SpecLib:
         return None
 
     def call_real(self, ex, obj, args, kwargs):
+        import sys as _sys
+        if obj is _sys.getfilesystemencoding:
+            self.use("sys.getfilesystemencoding(): some fixed string (uninterpreted constant fs_encoding)")
+            return VSeq("str", "int", z3.Const("fs_encoding", SeqI))
         return None
 
     # ------------------------------------------------------------------ sequences
@@ -225,6 +232,10 @@ class SpecLib:
             return self.seq_index(ex, obj, key, checked=True, node=node)
         if isinstance(obj, VBox) and obj.kind == "dict":
             return self.dict_get(ex, obj, key, node)
+        if isinstance(obj, VObj) and obj.cls == "SplitResult":
+            if not (isinstance(key, VInt) and key.py() == 0):
+                raise Unsupported("only element 0 of a split() result is modelled")
+            return obj.fields["first"]
         raise Unsupported("subscript of %r" % (obj,))
 
     def setitem(self, ex, obj, key, v):
@@ -292,7 +303,9 @@ class SpecLib:
         raise Unsupported("set display")
 
     def make_dict(self, ex, items):
-        raise Unsupported("dict display")
+        if items:
+            raise Unsupported("non-empty dict display")
+        return VBox("dict", None, "dict")         # key / value types are fixed by the first store
 
     def make_iter(self, ex, it):
         """-> VBox('iter', (VSeq, cursor)) for symbolic sequences, or a Python list of V for
@@ -377,20 +390,52 @@ class SpecLib:
     def container_len(self, ex, box):
         raise Unsupported("len of %r" % (box,))
 
-    def havoc_box(self, ex, box, nm):
-        raise Unsupported("havoc of %r" % (box,))
-
-    def box_equal(self, ex, box, a, b):
-        raise Unsupported("frame comparison of %r" % (box,))
-
-    def box_contains(self, ex, box, item):
-        raise Unsupported("membership in %r" % (box,))
+    def _dkey(self, ex, box, key):
+        if isinstance(key, VOpt):
+            key = ex.deopt(key)
+        return unwrap(box.val.kty, key)
 
     def dict_get(self, ex, box, key, node=None):
-        raise Unsupported("dict lookup")
+        self.use("dict: key set + value array (unordered view)")
+        if box.val is None:
+            ex.raise_(KeyError, node=node)
+        k = self._dkey(ex, box, key)
+        if ex.may_raise(z3.Not(z3.Select(box.val.keys, k))):
+            ex.raise_(KeyError, node=node)
+        return wrap(box.val.vty, z3.Select(box.val.vals, k))
 
     def dict_set(self, ex, box, key, v):
-        raise Unsupported("dict store")
+        self.use("dict: key set + value array (unordered view)")
+        if box.val is None:
+            if isinstance(key, VOpt):
+                key = ex.deopt(key)
+            box.val = empty_dict(type_of(key), type_of(v))
+        d = box.val
+        k = self._dkey(ex, box, key)
+        box.val = DictVal(d.kty, d.vty, z3.Store(d.keys, k, z3.BoolVal(True)), z3.Store(d.vals, k, unwrap(d.vty, v)))
+
+    def box_contains(self, ex, box, item):
+        if box.kind == "dict":
+            if box.val is None:
+                return z3.BoolVal(False)
+            return z3.Select(box.val.keys, self._dkey(ex, box, item))
+        raise Unsupported("membership in %r" % (box,))
+
+    def box_equal(self, ex, box, a, b):
+        if isinstance(a, DictVal) and isinstance(b, DictVal):
+            return z3.And(a.keys == b.keys, a.vals == b.vals)
+        if a is None and b is None:
+            return z3.BoolVal(True)
+        raise Unsupported("frame comparison of %r" % (box,))
+
+    def havoc_box(self, ex, box, nm):
+        if box.kind == "dict" and isinstance(box.val, DictVal):
+            d = box.val
+            ks, vs = sort_of(d.kty), sort_of(d.vty)
+            box.val = DictVal(d.kty, d.vty, z3.Const(fresh_name(nm + "_keys"), z3.ArraySort(ks, B)),
+                              z3.Const(fresh_name(nm + "_vals"), z3.ArraySort(ks, vs)))
+            return
+        raise Unsupported("havoc of %r" % (box,))
 
     def dict_del(self, ex, box, key):
         raise Unsupported("dict delete")
@@ -407,6 +452,14 @@ class SpecLib:
                 pos = z3.Int(fresh_name(nm + "_pos"))
                 ex.assume(pos >= 0)
                 return VObj("BinaryIO", {"data": data, "pos": VInt(pos), "closed": VBool(False)}, fresh_name(nm))
+            if ty[1] in REC_CLASSES:
+                fields = {}
+                for fname, fty in REC_CLASSES[ty[1]]:
+                    if fty == "objnone":
+                        fields[fname] = VOpt(z3.Bool(fresh_name(nm + fname + "?none")), VPy("<unknown object>"))
+                    else:
+                        fields[fname] = self.fresh_typed(ex, fty, nm + fname)
+                return VObj(ty[1], fields, fresh_name(nm))
             raise Unsupported("fresh object of class %s" % ty[1])
         v = fresh(ty, nm)
         self.range_facts(ex, v)
@@ -467,10 +520,18 @@ class SpecLib:
             sorts = []
             for kind in rec["args"]:
                 sorts.extend(self._flat_sorts(kind))
-            F = z3.Function(f.name.replace("spec:", "spec_"), *(sorts + [sort_of(rec["ret"])]))
+            if isinstance(rec["ret"], tuple) and rec["ret"][0] == "dict":
+                ks, vs = sort_of(rec["ret"][1]), sort_of(rec["ret"][2])
+                nm = f.name.replace("spec:", "spec_")
+                F = (z3.Function(nm + "_keys", *(sorts + [z3.ArraySort(ks, B)])),
+                     z3.Function(nm + "_vals", *(sorts + [z3.ArraySort(ks, vs)])))
+            else:
+                F = z3.Function(f.name.replace("spec:", "spec_"), *(sorts + [sort_of(rec["ret"])]))
             self.rec_specs[f.name] = F
             self.use("recursive spec function %s is well defined (terminates): its defining equation is "
                      "instantiated as an axiom, one unfolding per application" % f.name.replace("spec:", ""))
+        if isinstance(rec["ret"], tuple) and rec["ret"][0] == "dict":
+            return self._rec_spec_dict(ex, f, args, kwargs, rec, acts)
         app = F(*acts)
         # fuel 1: the defining equation F(args) == body(args) is instantiated for every application
         # that the contract text itself makes; applications inside that body are left folded.
@@ -489,9 +550,33 @@ class SpecLib:
                 ex.define(app == unwrap(rec["ret"], body), key=key)
         return wrap(rec["ret"], app)
 
+    def _rec_spec_dict(self, ex, f, args, kwargs, rec, acts):
+        FK, FV = self.rec_specs[f.name]
+        ak, av = FK(*acts), FV(*acts)
+        _, kty, vty = rec["ret"]
+        if ex._rec_depth == 0:
+            key = ("unfold", f.name, ak.get_id())
+            if key not in ex._axiom_keys:
+                ex._rec_depth += 1
+                prev = ex.no_ctx
+                ex.no_ctx = True
+                try:
+                    body = ex.pure_call(f, args, kwargs, norec=True)
+                finally:
+                    ex.no_ctx = prev
+                    ex._rec_depth -= 1
+                ex._keep.append(ak)
+                bv = body.val if isinstance(body, VBox) else body
+                if bv is None:
+                    bv = empty_dict(kty, vty)
+                ex.define(z3.And(ak == bv.keys, av == bv.vals), key=key)
+        return VBox("dict", DictVal(kty, vty, ak, av), "specdict")
+
     def _flat_sorts(self, kind):
         if kind == "int":
             return [I]
+        if kind.startswith("opt:"):
+            return [B] + self._flat_sorts(kind[4:])
         if kind in ("bytes", "str"):
             return [SeqI]
         if kind.startswith("view:"):
@@ -503,6 +588,12 @@ class SpecLib:
     def _flatten(self, kind, v):
         if kind == "int":
             return [unwrap("int", v)]
+        if kind.startswith("opt:"):
+            if v is NONE:
+                return [z3.BoolVal(True)] + [z3.Empty(SeqI) if kind[4:] in ("str", "bytes") else z3.IntVal(0)]
+            if isinstance(v, VOpt):
+                return [v.isnone] + self._flatten(kind[4:], v.val)
+            return [z3.BoolVal(False)] + self._flatten(kind[4:], v)
         if kind in ("bytes", "str"):
             return [v.t]
         if kind.startswith("list:"):
@@ -517,6 +608,10 @@ class SpecLib:
         if kind == "int":
             t = z3.Int(fresh_name("rf_" + nm))
             return [t], VInt(t)
+        if kind.startswith("opt:"):
+            ts, v = self._formal(kind[4:], nm)
+            b = z3.Bool(fresh_name("rf_" + nm + "_none"))
+            return [b] + ts, VOpt(b, v)
         if kind in ("bytes", "str"):
             t = z3.Const(fresh_name("rf_" + nm), SeqI)
             return [t], VSeq(kind, "int", t)
@@ -726,6 +821,10 @@ class SpecLib:
             ex.lemma("law slice-extend: s[a:j] + [s[j]] == s[a:j+1]", f)
             return VBool(True)
         B_["law_slice_extend"] = law_slice_extend
+        # mention(e): True.  Writing an application of a recursive spec function in contract text
+        # instantiates its defining equation there (fuel 1); `mention` is the way to ask for that
+        # instance without stating anything about the value.
+        B_["mention"] = lambda ex, a, kw: VBool(True)
 
         def b_comp(ex, a, kw):
             """comp(k, seq): the k-th list comprehension of the function under verification, as a function"""
@@ -795,6 +894,74 @@ class SpecLib:
             return x
         B_["next"] = it_next
         M[("iter", "__next__")] = it_next
+
+        # ---- bytes / str methods used on views
+        def s_split(ex, a, kw):
+            """x.split(sep): only element [0] is modelled = the part before the first occurrence of a
+            one-element separator (the whole of x when the separator does not occur)"""
+            x, sep = a[0], a[1] if len(a) > 1 else NONE
+            if not (isinstance(sep, VSeq) and sep.pyval is not None and len(sep.pyval) == 1):
+                raise Unsupported("split with this separator")
+            self.use("%s.split(sep)[0]: prefix before the first occurrence of a one-element separator" % x.kind)
+            c = sep.pyval[0] if isinstance(sep.pyval, bytes) else ord(sep.pyval)
+            if x.view is not None:
+                buf, L, H = x.view
+            else:
+                buf, L, H = x.t, z3.IntVal(0), z3.Length(x.t)
+            k = self.first_at(ex, buf, z3.IntVal(c), L)
+            end = z3.If(z3.And(k >= 0, k < H), k, H)
+            first = VSeq(x.kind, "int", None, view=(buf, L, z3.simplify(end)))
+            return VObj("SplitResult", {"first": first}, fresh_name("split"))
+        M[("bytes", "split")] = s_split
+        M[("str", "split")] = s_split
+
+        def s_strip(ex, a, kw):
+            x = a[0]
+            if len(a) > 1:
+                raise Unsupported("strip(chars)")
+            if x.pyval is not None:
+                return const_seq(x.kind, x.pyval.strip())
+            self.use("%s.strip(): a sub-view with uninterpreted bounds (py_lskip / py_rskip), lo <= lo' <= hi' <= hi" % x.kind)
+            if x.view is not None:
+                buf, L, H = x.view
+            else:
+                buf, L, H = x.t, z3.IntVal(0), z3.Length(x.t)
+            lo = F_LSKIP(buf, L, H)
+            hi = F_RSKIP(buf, lo, H)
+            ex.define(z3.Implies(L <= H, z3.And(L <= lo, lo <= hi, hi <= H)))
+            return VSeq(x.kind, "int", None, view=(buf, lo, hi))
+        M[("bytes", "strip")] = s_strip
+        M[("str", "strip")] = s_strip
+
+        def s_decode(ex, a, kw):
+            x = a[0]
+            enc = a[1] if len(a) > 1 else kw.get("encoding", const_seq("str", "utf-8"))
+            err = a[2] if len(a) > 2 else kw.get("errors", const_seq("str", "strict"))
+            self.use("bytes.decode(encoding, errors): uninterpreted function of (bytes, encoding, errors), assumed not to raise")
+            enc = enc.val if isinstance(enc, VOpt) else enc
+            err = err.val if isinstance(err, VOpt) else err
+            return VSeq("str", "int", F_DECODE(x.t, enc.t, err.t))
+        M[("bytes", "decode")] = s_decode
+
+        def s_startswith(ex, a, kw):
+            x, p = a[0], a[1]
+            if isinstance(p, VTuple):
+                return VBool(z3.Or(*[s_startswith(ex, [x, q], {}).t for q in p.items]))
+            if p.pyval is None:
+                return VBool(z3.PrefixOf(p.t, x.t))
+            codes = [ord(ch) for ch in p.pyval] if isinstance(p.pyval, str) else list(p.pyval)
+            if x.view is not None:
+                buf, L, H = x.view
+                return VBool(z3.And(H - L >= len(codes), *[buf[L + i] == c for i, c in enumerate(codes)]))
+            return VBool(z3.PrefixOf(p.t, x.t))
+        M[("bytes", "startswith")] = s_startswith
+        M[("str", "startswith")] = s_startswith
+
+        def s_endswith(ex, a, kw):
+            x, p = a[0], a[1]
+            return VBool(z3.SuffixOf(p.t, x.t))
+        M[("bytes", "endswith")] = s_endswith
+        M[("str", "endswith")] = s_endswith
 
         # ---- compiled patterns and match objects
         def p_match(how):
@@ -890,7 +1057,7 @@ class SpecLib:
 
         def io_seek(ex, a, kw):
             self.use("BinaryIO.seek")
-            fp, off = a[0], unwrap("int", a[1])
+            fp, off = a[0], unwrap("int", ex.deopt(a[1]))
             wh = a[2] if len(a) > 2 else kw.get("whence", VInt(0))
             w = wh.py()
             pos = fp.fields["pos"].t
